@@ -149,6 +149,9 @@ theorem log_norm (q : Q ℝ) (h : cutoff < q.vec.norm) : (quatLog q).norm = 2 * 
 theorem diff_neg_left (p q : Q ℝ) (hw : (p.mul q.conj).w ≠ 0) : quatDiff p.neg q = quatDiff p q := by
   unfold quatDiff; rw [neg_mul']; exact quatLog_neg_eq _ hw
 
+theorem diff_neg_right (p q : Q ℝ) (hw : (p.mul q.conj).w ≠ 0) : quatDiff p q.neg = quatDiff p q := by
+  unfold quatDiff; rw [conj_neg, mul_neg']; exact quatLog_neg_eq _ hw
+
 /-! ## sum and difference are inverse to each other -/
 
 /-- subtracting `q` from `q ⊕ r` is `log(exp r)` exactly (unit `q`) … -/
@@ -302,6 +305,59 @@ theorem mean_symmetric_centre_partial (eig : Mat ℝ 4 4 → Q ℝ) (w : Vec ℝ
   rcases hd.2 _ hcon with h | h
   · left; exact eq_of_get_eq h
   · right; apply eq_of_get_eq; rw [get_neg]; exact h
+
+/-- The clause "equals the common centre of inputs placed symmetrically around it" for unscented weight
+    sets to the letter: like `mean_symmetric_centre`, but a negative weight is allowed on inputs equal
+    to the centre (`r_i = 0`), total weight positive. -/
+def MeanSymmetricCentreAnyCentralWeight : Prop :=
+  ∀ {n : Nat} (eig : Mat ℝ 4 4 → Q ℝ) (w : Vec ℝ n) (q : Mat ℝ 4 n) (c : Q ℝ)
+    (r : Fin n → V3 ℝ) (σ : Fin n → Fin n), Function.Involutive σ → c.normSq = 1 →
+    (∀ i, Q.ofCol q i = quatSum c (r i)) → (∀ i, r (σ i) = (r i).neg) → (∀ i, w (σ i) = w i) →
+    (∀ i, 0 ≤ w i ∨ r i = ⟨0, 0, 0⟩) → 0 < ∑ i, w i → (∀ i, (r i).norm < π / 2) →
+    MeanContract eig w q → quatMean eig w q = c ∨ quatMean eig w q = c.neg
+
+/-- It fails when the spread is wide: centre `1`, sigma points `exp(±(3/2, 0, 0))`, weights
+    `(-1, 1, 1)` (sum 1): the matrix is `diag(cos 3/2, 1 − cos 3/2, 0, 0)`, `cos 3/2 < 1/2`, so the
+    eigenvector of the largest eigenvalue is `(0, 1, 0, 0)` — a half turn about x away from the centre.
+    (`mean_symmetric_centre_partial` covers the sets with `Σ w_i cos‖r_i‖ > 0`; here it is
+    `-1 + 2 cos(3/2) < 0`.) -/
+theorem mean_symmetric_centre_negative_weight_counterexample : ¬ MeanSymmetricCentreAnyCentralWeight := by
+  intro h
+  let c : Q ℝ := ⟨1, 0, 0, 0⟩
+  let q : Mat ℝ 4 3 := qCols (fun i => quatSum c (rWide i))
+  let w : Vec ℝ 3 := Vec.of wWide
+  let v : Q ℝ := ⟨0, 1, 0, 0⟩
+  have hcon : MeanContract (fun _ => v) w q := by
+    unfold MeanContract
+    rw [toM_outerMean]
+    have hcols : colsOf q = fun i => (quatSum c (rWide i)).get := by
+      funext i; rw [colsOf_eq, ofCol_qCols]
+    rw [hcols]
+    exact wide_contract
+  have hσ : Function.Involutive (![0, 2, 1] : Fin 3 → Fin 3) := by
+    intro i; fin_cases i <;> rfl
+  have hres := h (fun _ => v) w q c rWide ![0, 2, 1] hσ (by simp [c, Q.normSq])
+    (fun i => ofCol_qCols _ i)
+    (by intro i; fin_cases i <;> simp [rWide, V3.neg])
+    (by intro i; fin_cases i <;> simp [w, wWide])
+    (by intro i; fin_cases i <;> simp [w, wWide, rWide])
+    (by simp [w, wWide, Fin.sum_univ_three])
+    (by
+      intro i
+      have h32 : (⟨3 / 2, 0, 0⟩ : V3 ℝ).norm = 3 / 2 := norm_x_axis _ (by norm_num)
+      fin_cases i
+      · show (⟨0, 0, 0⟩ : V3 ℝ).norm < π / 2
+        rw [V3.norm_zero]; linarith [Real.pi_pos]
+      · show (⟨3 / 2, 0, 0⟩ : V3 ℝ).norm < π / 2
+        rw [h32]; linarith [Real.pi_gt_three]
+      · show ((⟨3 / 2, 0, 0⟩ : V3 ℝ).neg).norm < π / 2
+        rw [V3.neg_norm, h32]; linarith [Real.pi_gt_three])
+    hcon
+  rcases hres with h1 | h1
+  · have := congrArg Q.w h1
+    simp [quatMean, v, c] at this
+  · have := congrArg Q.w h1
+    simp [quatMean, v, c, Q.neg] at this
 
 /-- non-vacuity of the symmetric-centre hypotheses: the sigma-point layout `0, +r, -r` with
     weights `1/3` and `‖r‖ = 1 < π/2` -/
